@@ -8,7 +8,8 @@ import (
 	"github.com/olric-data/olric/internal/dmap"
 )
 
-// VerifC12_ClusterIterator: the client iterator (ClusterIterator.Next/Key over the real DM.SCAN handlers) run to
+// VerifC12_ClusterIterator: the client iterators (ClusterIterator.Next/Key over the real DM.SCAN handlers, and the
+// embedded client's variant that scans its own member directly) run to
 // completion over two partitions whose routes may list a previous primary owner that still holds some keys and a
 // replica owner, with a solver-chosen page size and key placement: it terminates, yields every present key exactly
 // once and no key that was deleted or never stored.
@@ -71,6 +72,12 @@ func VerifC12_ClusterIterator() {
 		cancel:         cancel,
 	}
 	it.scanner = it.scanOnOwners
+	if vpChoose("embedded", 2) == 1 {
+		// the embedded client's iterator: the same ClusterIterator with EmbeddedIterator.scanOnOwners as scanner,
+		// which scans member 0's own fragments directly and the other member over the wire
+		e := &EmbeddedIterator{client: &EmbeddedClient{db: &Olric{rt: cl.RT(0)}}, dm: cl.DMap(0, "d"), clusterIterator: it}
+		it.scanner = e.scanOnOwners
+	}
 	it.loadRoute()
 	seen := make([]int, len(keys))
 	foreign := 0
